@@ -3,11 +3,11 @@
   theorems, and the conclusions are observable on them.
 -/
 import FcProofs.Props.C03
-namespace Fc
-open Spec
+namespace Fc.C03
+open Fc Fc.Spec
 
 def u1 : Int := 2 ^ 1074           -- 1.0
-def tolRel : Nat := Gen.meshDefaultRelTol
+def tolRel : Nat := Gen.C16.meshDefaultRelTol
 def tolAbs : Nat := 2 ^ 1048       -- ≈ 1.5e-8
 
 /-- a hybrid mesh: one quad, one triangle, one orphan point -/
@@ -18,7 +18,7 @@ def hA : Mesh := ⟨2, [[0, 0], [u1, 0], [u1, u1], [0, u1], [2 * u1, 0], [7 * u1
 def hB : Mesh := ⟨2, [[0, 0], [u1, 0], [u1 + 2 ^ 1044, u1], [0, u1], [2 * u1, 0], [7 * u1, 7 * u1]],
   [("TRIANGLE", [[4, 2, 1]]), ("PIXEL", [[0, 1, 3, 2]])]⟩
 
-example : hA.wfEq = true ∧ hB.wfEq = true := by decide +kernel
+example : (wfEq hA) = true ∧ (wfEq hB) = true := by decide +kernel
 -- the hypothesis of C03_mesh_equal_sound is satisfiable by meshes that differ in storage and type names
 example : meshEqualWith tolRel tolAbs hA hB = .ok true ∧ meshEqualWith tolRel tolAbs hB hA = .ok true := by
   decide +kernel
@@ -32,7 +32,7 @@ example : CellsMatch (hA.cellsOf "QUAD") (hB.cellsOf "PIXEL") :=
 example : meshEqualWith tolRel tolAbs (setCoord hA 4 1 (2 ^ 1054)) hA = .ok false ∧
     meshEqualWith tolRel tolAbs hA (setCoord hA 4 1 (2 ^ 1054)) = .ok false := by decide +kernel
 -- the hypotheses of C03_single_site_moved_point hold for this instance
-example : (4 < hA.numPoints) ∧ (1 < hA.dim) ∧ docFormula f64 (hA.coord 4 1) (2 ^ 1054) tolRel tolAbs = false := by
+example : (4 < hA.numPoints) ∧ (1 < hA.dim) ∧ docFormula f64 (coord hA 4 1) (2 ^ 1054) tolRel tolAbs = false := by
   decide +kernel
 -- a rewired corner, a removed cell, an added cell, a dropped type block
 example : meshEqualWith tolRel tolAbs (rewire hA "TRIANGLE" 0 1 0) hA = .ok false ∧
@@ -66,4 +66,4 @@ example : let r := ladder toyOps ⟨false, false⟩ [3, 1, 2] [2, 3, 1]
 example : (ladder toyOps ⟨false, false⟩ [3, 1, 2] [2, 3, 1]).suite = true ∧
     (ladder toyOps ⟨true, false⟩ [3, 1, 2] [2, 3, 1]).suite = false := by decide
 
-end Fc
+end Fc.C03
